@@ -89,8 +89,14 @@ impl PortFilter {
     /// // Matches ports 8000 through 8999
     /// ```
     pub fn destination_range(mut self, range: std::ops::Range<u16>) -> Self {
-        self.destination_ranges
-            .push((range.start, range.end.saturating_sub(1)));
+        // An empty range (e.g. `0..0`) matches no port: store a pair that can never match
+        // instead of the inclusive pair (0, 0).
+        let inclusive = if range.is_empty() {
+            (1, 0)
+        } else {
+            (range.start, range.end.saturating_sub(1))
+        };
+        self.destination_ranges.push(inclusive);
         self
     }
 
@@ -105,8 +111,14 @@ impl PortFilter {
     /// // Matches ports 10000 through 19999
     /// ```
     pub fn source_range(mut self, range: std::ops::Range<u16>) -> Self {
-        self.source_ranges
-            .push((range.start, range.end.saturating_sub(1)));
+        // An empty range (e.g. `0..0`) matches no port: store a pair that can never match
+        // instead of the inclusive pair (0, 0).
+        let inclusive = if range.is_empty() {
+            (1, 0)
+        } else {
+            (range.start, range.end.saturating_sub(1))
+        };
+        self.source_ranges.push(inclusive);
         self
     }
 
